@@ -49,8 +49,10 @@ def gen_specs(tier, seed):
         b = [s for s in specs if sum(nwires(SHAPES[c]) for c in s) == 7][::24]
         c = [s for s in specs if sum(nwires(SHAPES[c]) for c in s) == 8][::400]
         specs = a + b + c
-    # programs assembled by hand may keep their mode sequences as tuples (marker -1): same wires, same graph
-    specs += [s + (-1,) for s in [x for x in specs if len(x) >= 2][::(7 if tier == "quick" else 3)]]
+    # programs assembled by hand may keep their mode sequences (marker -1) or their argument sequences (marker -2) as tuples:
+    # same wires, same graph
+    multi = [x for x in specs if len(x) >= 2]
+    specs += [s + (-1,) for s in multi[::(7 if tier == "quick" else 3)]] + [s + (-2,) for s in multi[1::(7 if tier == "quick" else 3)]]
     return specs
 
 
@@ -96,6 +98,8 @@ def build(spec, wire):
                 op["kwargs"] = dict(op["kwargs"], tag="q0")
             else:
                 op["args"] = list(op["args"]) + ["2*q1+q2"]
+        if -2 in spec and "args" in op:
+            op["args"] = tuple(op["args"])
         prog._operations.append(op)
         per_op.append(wires)
     return prog, per_op
@@ -168,7 +172,7 @@ def run_spec(spec):
             out.update(result="inconclusive", why=str(e), stats=E.stats)
             return out
     out["paths"] = len(paths)
-    out["text"] = "program shape %r (%d symbolic wires)%s" % ([SHAPES[c] for c in shape], nw, ", modes kept as tuples" if -1 in spec else "")
+    out["text"] = "program shape %r (%d symbolic wires)%s" % ([SHAPES[c] for c in shape], nw, ", modes kept as tuples" if -1 in spec else (", arguments kept as tuples" if -2 in spec else ""))
     _, per_op_terms = build(spec, lambda i: ws[i])
     R = ref_reach(per_op_terms, lambda a, b: a == b, z3.And, lambda xs: z3.Or(xs) if xs else z3.BoolVal(False), z3.BoolVal(False))
     for pth in paths:
